@@ -14,6 +14,7 @@ import Rare.Proofs.C08Sites
 import Rare.Proofs.C08Size
 import Rare.Proofs.C08Doubling
 import Rare.Proofs.C08ArrayBound
+import Rare.Proofs.C08ReduceBound
 import Rare.Proofs.C08Unmodelled
 import Rare.Proofs.C08Dedup
 import Rare.Proofs.C08Format
@@ -1206,6 +1207,16 @@ theorem map_output_bound (c : Ctx) (a0 a1 : Stage) (h0 : Safe a0) (h1 : Safe a1)
     ∃ arr out, a0.run c = .ok arr ∧ (Funcs.Range.mapStage a0 a1).run c = .ok out ∧
       out.length + 1 ≤ (C17.elems arr).length * (B + 1) ∧ (C17.elems arr).length ≤ arr.length + 1 :=
   mapStage_length c a0 a1 h0 h1 B hB
+
+/-- **`{@reduce}` answers an accumulator value**: the initial value, the first element, or the last value of the
+    reducer - at most `max B (max |init| |array|)` bytes when every value of the reducer has at most `B` bytes (for
+    every context, initial value, array expression and reducer that cannot panic).  The unbounded case is a reducer
+    whose value grows with its own argument (`{0}{0}`), `for_doubling_all`. -/
+theorem reduce_output_bound (c : Ctx) (init : Bytes) (a0 a1 : Stage) (h0 : Safe a0) (h1 : Safe a1) (B : Nat)
+    (hB : ∀ v0 v1 o, a1.run (C17.subCtx c v0 v1) = .ok o → o.length ≤ B) :
+    ∃ arr out, a0.run c = .ok arr ∧ (Funcs.Range.reduceStage init a0 a1).run c = .ok out ∧
+      out.length ≤ max B (max init.length arr.length) :=
+  reduceStage_length c init a0 a1 h0 h1 B hB
 
 /-- non-vacuity: `{@map {0} "[{0}]"}`-like stage - the mapped value of a 3-byte-bounded element expression -/
 example : ∃ arr out, (Comp.match_ 0).run ⟨fun _ => [97, 0, 98, 99], fun _ => []⟩ = .ok arr ∧
